@@ -62,6 +62,8 @@ pub struct Row {
     pub n: u64,
     /// Substitution values per byte (substitution stage only).
     pub n_sub: u64,
+    /// Truncation stage: the cut offsets when not every offset is cut (documents with a record > 64 KiB).
+    pub cuts: Option<Arc<Vec<usize>>>,
 }
 
 pub struct Table {
@@ -231,7 +233,8 @@ pub fn valid_streams(thorough: bool) -> Vec<ValidStream> {
         push(Codec::Gzip(n), format!("gzip of {name}"), Ok(Ok(mutate::gzip(src))));
         push(Codec::Lzma(n), format!("lzma of {name}"), vmc::catch(|| cv::lzma_encode(6, src)));
     }
-    for names in [&b"r1\0r2\0r3\0"[..], &b"read.1:100\0read.1:101\0read.2:7\0"[..], &b"a\0"[..]] {
+    let name_sets: &[&[u8]] = if thorough { &[&b"r1\0r2\0r3\0"[..], &b"read.1:100\0read.1:101\0read.2:7\0"[..], &b"a\0"[..]] } else { &[&b"r1\0r2\0r3\0"[..]] };
+    for names in name_sets.iter().copied() {
         push(Codec::NameTokenizer, format!("names {:?}", String::from_utf8_lossy(names)), vmc::catch(|| cv::name_tokenizer_encode(names)));
     }
     // python3 bz2.compress(b"hello hello hello noodles")
@@ -323,9 +326,49 @@ impl Plan {
         let mut subst = Vec::new();
         let mut fields = Vec::new();
         for (i, d) in docs.iter().enumerate() {
+            // documents with a single record larger than a BGZF block: truncations (within 64 bytes of member / record
+            // boundaries and every 251st byte) and field mutations only
+            if d.name.starts_with("big-") && !d.raw && d.inner.is_some() && d.format != Format::Bgzf {
+                // quick: the BAM and the BCF document only, cuts within 8 bytes of the boundaries and every 2003rd byte
+                // (every case re-compresses and parses > 100 KB)
+                if !thorough && !matches!(d.format, Format::Bam | Format::Bcf) {
+                    continue;
+                }
+                let (near, step) = if thorough { (64usize, 251usize) } else { (8, 2003) };
+                let inner = d.inner.as_ref().unwrap();
+                for layer in [Layer::Outer, Layer::Inner] {
+                    let (len, marks): (usize, Vec<usize>) = match layer {
+                        Layer::Outer => (d.bytes.len(), d.item_ends.to_vec()),
+                        Layer::Inner => (inner.bytes.len(), std::iter::once(inner.header_end).chain(inner.record_ends.iter().copied()).collect()),
+                    };
+                    let mut v: Vec<usize> = (0..len).step_by(step).collect();
+                    for b in marks.into_iter().chain([0]) {
+                        for dd in 0..=near {
+                            if b + dd < len {
+                                v.push(b + dd);
+                            }
+                            if b >= dd && b - dd < len {
+                                v.push(b - dd);
+                            }
+                        }
+                    }
+                    v.sort_unstable();
+                    v.dedup();
+                    let cuts = Arc::new(v);
+                    for a in Api::all_for(d.format) {
+                        let mode = Mode::Read(*a);
+                        trunc.push(Row { doc: i, layer, mode, n: cuts.len() as u64, n_sub: 6, cuts: Some(cuts.clone()) });
+                        let nf = layer_fields(d, layer).len() as u64;
+                        if nf > 0 {
+                            fields.push(Row { doc: i, layer, mode, n: nf * FIELD_SLOTS, n_sub: 6, cuts: None });
+                        }
+                    }
+                }
+                continue;
+            }
             // raw streams and most padded layouts are C12 documents; here one padded BAM / BCF (with a block boundary
             // inside the padding) is enough: the record layers are those of the base documents
-            if d.big || d.raw || d.name.starts_with("eng-") || (d.equiv_of.is_some() && !d.name.ends_with("padded64-split")) {
+            if d.big || d.raw || d.name.starts_with("eng-") || d.name.starts_with("reuse-") || (d.equiv_of.is_some() && !d.name.ends_with("padded64-split")) {
                 continue;
             }
             let mut modes: Vec<Mode> = Api::all_for(d.format).iter().map(|a| Mode::Read(*a)).collect();
@@ -333,7 +376,9 @@ impl Plan {
                 modes.push(Mode::Query);
             }
             let text_gz = d.format == Format::Bgzf && d.set.ends_with(".gz");
-            if d.index_of.is_none() && others[i].is_some() && (text_gz || matches!(d.format, Format::Bam | Format::Bcf | Format::VcfGz | Format::SamGz | Format::Cram)) {
+            // quick: CRAM queries (about 1 ms per case) on one document only
+            let cram_query_ok = d.format != Format::Cram || thorough || d.name == "cram-mapped-rps3";
+            if d.index_of.is_none() && others[i].is_some() && cram_query_ok && (text_gz || matches!(d.format, Format::Bam | Format::Bcf | Format::VcfGz | Format::SamGz | Format::Cram)) {
                 modes.push(Mode::QueryData);
             }
             let mut layers = vec![Layer::Outer];
@@ -355,11 +400,13 @@ impl Plan {
                     };
                     let quick_ns = if is_text { 14 } else { 6 };
                     let ns = if thorough && (quick_names.contains(&d.name) || (d.equiv_of.is_none() && i >= n_corpus && is_text)) { 255 } else { quick_ns };
-                    trunc.push(Row { doc: i, layer, mode, n: len, n_sub: ns });
-                    subst.push(Row { doc: i, layer, mode, n: len * ns, n_sub: ns });
+                    trunc.push(Row { doc: i, layer, mode, n: len, n_sub: ns, cuts: None });
+                    subst.push(Row { doc: i, layer, mode, n: len * ns, n_sub: ns, cuts: None });
                     let nf = layer_fields(d, layer).len() as u64;
-                    if nf > 0 && mode != Mode::QueryData {
-                        fields.push(Row { doc: i, layer, mode, n: nf * FIELD_SLOTS, n_sub: ns });
+                    // quick: the field stage skips the third CRAM document (543+ fields x 40 values, ~1 ms per case)
+                    let skip_fields = !thorough && d.name == "cram-paired-rps3";
+                    if nf > 0 && mode != Mode::QueryData && !skip_fields {
+                        fields.push(Row { doc: i, layer, mode, n: nf * FIELD_SLOTS, n_sub: ns, cuts: None });
                     }
                 }
             }
@@ -458,7 +505,10 @@ impl Plan {
             ST_TRUNC => {
                 let (row, k) = self.trunc.locate(case);
                 let d = &self.docs[row.doc];
-                let k = k as usize;
+                let k = match &row.cuts {
+                    Some(c) => c[k as usize],
+                    None => k as usize,
+                };
                 let bytes = match row.layer {
                     Layer::Outer => d.bytes[..k].to_vec(),
                     Layer::Inner => {
@@ -558,10 +608,11 @@ fn norm_msg(s: &str) -> String {
 }
 
 /// Runs one document-level input; returns the verdict (panics propagate).
-pub fn exec_doc(format: Format, set: &str, mode: Mode, bed_n: usize, raw: bool, other: Option<&Other>, bytes: &[u8]) -> Result<(u64, bool), (String, String)> {
+pub fn exec_doc(format: Format, set: &str, mode: Mode, bed_n: usize, raw: bool, len_hint: usize, other: Option<&Other>, bytes: &[u8]) -> Result<(u64, bool), (String, String)> {
     let log = match (mode, other) {
         (Mode::Read(api), _) => {
-            let mut o = Opts::new(bytes.len()).api(api);
+            // the iteration caps count items: use the uncompressed size of the original document when it is larger
+            let mut o = Opts::new(bytes.len().max(len_hint)).api(api);
             o.bed_n = bed_n;
             o.raw = raw;
             vnd::read_log(format, bytes, &o)
@@ -884,13 +935,17 @@ pub fn query_log(data_format: Format, data_set: &str, data: &[u8], index_format:
     log
 }
 
+pub fn len_hint_of(d: &Doc) -> usize {
+    d.inner.as_ref().map(|i| i.bytes.len()).unwrap_or(0)
+}
+
 fn bed_n_of(d: &Doc) -> usize {
     if d.name.starts_with("bed3") { 3 } else { 6 }
 }
 
-pub fn payload_doc(format: Format, set: &str, mode: Mode, bed_n: usize, raw: bool, other: Option<&Other>, bytes: &[u8]) -> String {
+pub fn payload_doc(format: Format, set: &str, mode: Mode, bed_n: usize, raw: bool, len_hint: usize, other: Option<&Other>, bytes: &[u8]) -> String {
     vmc::json!({
-        "kind": "doc", "format": format.name(), "set": set, "mode": mode.name(), "bed_n": bed_n, "raw": raw, "input_hex": to_hex(bytes),
+        "kind": "doc", "len_hint": len_hint, "format": format.name(), "set": set, "mode": mode.name(), "bed_n": bed_n, "raw": raw, "input_hex": to_hex(bytes),
         "other": other.map(|o| vmc::json!({"format": o.format.name(), "set": o.set, "name": o.name, "hex": to_hex(&o.bytes)})),
     })
     .to_string()
@@ -927,14 +982,14 @@ impl Stages for Plan {
         let Some((row, bytes, what)) = self.input(stage, case) else { return Verdict::Trivial };
         let d = &self.docs[row.doc];
         let other = self.others[row.doc].as_ref();
-        match exec_doc(d.format, &d.set, row.mode, bed_n_of(d), d.raw, other, &bytes) {
+        match exec_doc(d.format, &d.set, row.mode, bed_n_of(d), d.raw, len_hint_of(d), other, &bytes) {
             Ok((class, ok)) => Verdict::Fine { class, ok },
             Err((fp, observed)) => Verdict::Violation(Finding {
                 fingerprint: format!("{} {fp}", self.fp_prefix(stage, case)),
                 decoded: self.decoded(row, &what, &bytes),
                 expected: "Ok or io::Error after finitely many steps".into(),
                 observed,
-                payload: payload_doc(d.format, &d.set, row.mode, bed_n_of(d), d.raw, other, &bytes),
+                payload: payload_doc(d.format, &d.set, row.mode, bed_n_of(d), d.raw, len_hint_of(d), other, &bytes),
                 stage,
                 case,
             }),
@@ -951,7 +1006,7 @@ impl Stages for Plan {
             None => ("trivial case".into(), String::new(), "{}".into()),
             Some((row, bytes, what)) => {
                 let d = &self.docs[row.doc];
-                (self.decoded(row, &what, &bytes), String::new(), payload_doc(d.format, &d.set, row.mode, bed_n_of(d), d.raw, self.others[row.doc].as_ref(), &bytes))
+                (self.decoded(row, &what, &bytes), String::new(), payload_doc(d.format, &d.set, row.mode, bed_n_of(d), d.raw, len_hint_of(d), self.others[row.doc].as_ref(), &bytes))
             }
         }
     }
